@@ -16,6 +16,8 @@ pub enum Layer {
     Tpkt,
     X224,
     Link,
+    /// a full real conversation over TLS whose transport accepts the writes in pieces (len = 1: NLA on)
+    Conversation,
 }
 
 #[derive(Clone, Debug, Serialize)]
@@ -53,7 +55,7 @@ fn max_len(l: Layer) -> usize {
     match l {
         Layer::Tpkt => 65531,
         Layer::X224 => 65528,
-        Layer::Link => usize::MAX,
+        Layer::Link | Layer::Conversation => usize::MAX,
     }
 }
 
@@ -61,7 +63,7 @@ fn reference(l: Layer, p: &[u8]) -> Vec<u8> {
     match l {
         Layer::Tpkt => framing::tpkt(p),
         Layer::X224 => framing::tpkt(&framing::x224_dt(p)),
-        Layer::Link => p.to_vec(),
+        Layer::Link | Layer::Conversation => p.to_vec(),
     }
 }
 
@@ -157,6 +159,14 @@ impl Prop for C14 {
                 }
             }
         }
+        // G: whole conversations with a short-writing transport (end to end through OpenSSL and CredSSP)
+        for nla in [1usize, 0] {
+            for k in [1usize, 2, 3, 5, 7, 16, 1024] {
+                cs.push(Case { layer: Layer::Conversation, len: nla, plan: WP::Cap(k) });
+            }
+            cs.push(Case { layer: Layer::Conversation, len: nla, plan: WP::Seq(vec![1, 2, 3, 1, 1, 5, 7, 1, 2]) });
+            cs.push(Case { layer: Layer::Conversation, len: nla, plan: WP::Interrupted(3) });
+        }
         self.cases = cs;
         Ok(())
     }
@@ -167,7 +177,7 @@ impl Prop for C14 {
         json!({"idx": idx, "case": self.cases[idx as usize]})
     }
     fn rule(&self) -> String {
-        "cases = (layer in {tpkt, x224, link}, payload length, write behaviour of the stream); lengths 0..70000 all enumerated on an accepting stream; short-write caps {1,2,3,4,5,7,8,1024} for every length <= 300 and every 16-bit boundary length; every composition of write sizes for frames <= 12 bytes; zero-length writes; an error injected at every byte position for lengths <= 64 and boundary lengths; EINTR once. Non-trivial: the stream deviates from accepting everything, or the length is within 8 of a 7/14/15/16-bit boundary or above the frame limit.".into()
+        "cases = (layer in {tpkt, x224, link}, payload length, write behaviour of the stream); lengths 0..70000 all enumerated on an accepting stream; short-write caps {1,2,3,4,5,7,8,1024} for every length <= 300 and every 16-bit boundary length; every composition of write sizes for frames <= 12 bytes; zero-length writes; an error injected at every byte position for lengths <= 64 and boundary lengths; EINTR once; plus 18 full real conversations over TLS (NLA on/off) with a transport accepting k bytes per write, k in {1,2,3,5,7,16,1024}, an irregular size sequence, and EINTR. Non-trivial: the stream deviates from accepting everything, or the length is within 8 of a 7/14/15/16-bit boundary or above the frame limit.".into()
     }
     fn assumptions(&self) -> Vec<String> {
         vec![
@@ -184,6 +194,24 @@ impl Prop for C14 {
     }
     fn run_case(&mut self, idx: u64) -> Outcome {
         let c = self.cases[idx as usize].clone();
+        if c.layer == Layer::Conversation {
+            let nla = c.len == 1;
+            let wp = match &c.plan {
+                WP::Cap(k) => WritePlan::Cap(*k),
+                WP::Seq(v) => WritePlan::Seq(v.clone()),
+                WP::Interrupted(k) => WritePlan::InterruptedAt(*k),
+                _ => WritePlan::All,
+            };
+            let cfg = crate::tls::ConnCfg { use_nla: nla, ..Default::default() };
+            let p = crate::peer::ServerParams { selected: if nla { 2 } else { 1 }, reactivations: 1, ..Default::default() };
+            return match crate::wire::converse_fragmented(&cfg, &p, crate::tls::Cert::A, true, crate::memlink::ReadPlan::All, wp) {
+                Err(e) => Outcome::fail("setup", "machinery", e),
+                Ok(t) => match crate::wire::check_c03(&t) {
+                    Some(f) => Outcome::fail("mismatch", format!("conversation-fails-with-short-writing-transport: {}", f.sig), format!("{:?}: {}", c.plan, f.detail)),
+                    None => Outcome::pass("conversation-with-short-writes", true),
+                },
+            };
+        }
         let p = payload(c.len);
         let link = MemLink::scripted(&[]);
         link.sh.borrow_mut().write_plan = match &c.plan {
@@ -202,6 +230,7 @@ impl Prop for C14 {
             }
             Layer::Tpkt => tpkt::Client::new(l).write(p.clone()).is_ok(),
             Layer::X224 => x224::Client::verif_new_raw(tpkt::Client::new(l), x224::Protocols::ProtocolSSL).write(p.clone()).is_ok(),
+            Layer::Conversation => unreachable!(),
         };
         let delivered = sh.borrow().from_client.clone();
         let near = |b: usize| c.len + 8 >= b && c.len <= b + 8;
